@@ -31,6 +31,28 @@ def gen(rng, i):
             "horizon": 40000}
 
 
+def directed_shutdown_tasks(quick):
+    """shutdown(wait=True) lands at every point of an iteration of each worker loop that a submission at the same
+    instant has just woken (the flag check / clear / wait sequence of the loop; line granularity)."""
+    swept = []
+    for ly, worker in (({"t": "retry", "max": 3, "sleep": 400}, "RetryExecutor-L1"),
+                       ({"t": "poll", "mode": "second"}, "PollExecutor-L1"),
+                       ({"t": "throttle", "count": 1}, "ThrottleExecutor-L1"),
+                       ({"t": "timeout", "T": 700}, "TimeoutExecutor-L1")):
+        # (a) only the submission that woke the loop: afterwards nothing is queued, the loop sleeps without a timer;
+        # (b) an earlier submission is waiting for its retry / deadline: the loop sleeps with a timer
+        for subs in ([{"S": 300, "script": ["V"], "dur": 50, "thread": 0}],
+                     [{"S": 0, "script": ["E", "V"], "dur": 50, "thread": 0}, {"S": 300, "script": ["V"], "dur": 50, "thread": 1}]):
+            pp = {"base": "pool", "workers": 1, "layers": [ly], "subs": subs,
+                  "shutdown": {"at": 300, "wait": True, "repeat": 1, "threads": 1, "cancel_futures": None}, "horizon": 40000}
+            for n in range(1, 140 if len(subs) == 1 else 60, 1 if len(subs) == 1 or not quick else 3):
+                for m in ((10000,) if quick else (2, 6, 12, 24, 10000)):
+                    swept.append({"scen": "stack", "params": pp,
+                                  "strat": ["phases", [[worker, n, 300], ["sh", m], [worker, 10000]]], "gran": "line",
+                                  "facts": {"base": "pool", "types": [ly["t"]], "block": False, "directed": True}})
+    return swept
+
+
 def run(ck):
     quick = ck.tier == "quick"
     rng = random.Random(ck.seed)
@@ -45,6 +67,8 @@ def run(ck):
                       "facts": {"base": p["base"], "types": sorted(set(l["t"] for l in p["layers"])),
                                 "block": any(l.get("block") for l in p["layers"])}})
     ck.run_and_validate(tasks, TRACE)
+    swept = directed_shutdown_tasks(quick)
+    ck.run_and_validate(swept, TRACE, nontrivial=lambda t, r: True)
     if not quick:
         # the repository's own test suite (real threads, real time) recorded through class-level wrappers and validated
         # by TLC against spec/ApiObs.tla (order-only clauses)
